@@ -11,6 +11,7 @@ branch of every `if`/`match` is walked with its path condition, loops are walked
 once with a symbolic element.
 """
 from formula import And, Not, Or, atom
+import re
 import formula as F
 
 # ---------------------------------------------------------------------------
@@ -186,6 +187,25 @@ class PhiV(V):
         return "phi(%s)" % " | ".join("%s -> %s" % (F.show(c), v.r()) for c, v in self.alts)
 
 
+class IterMapV(V):
+    """`iter.map(f)`: an iterator whose element is `result` (f applied to the symbolic element of `src`)."""
+
+    def __init__(self, src, result):
+        self.src = src
+        self.result = result
+
+    def r(self):
+        return "%s.map(=> %s)" % (self.src.r(), self.result.r())
+
+
+def elem_of(v):
+    """Symbolic element of an iterated value."""
+    v0 = core(v)
+    if isinstance(v0, IterMapV):
+        return v0.result
+    return Sel(v, "[]")
+
+
 class TagV(V):
     def __init__(self, cls, n):
         self.cls = cls
@@ -303,6 +323,9 @@ def roots(v, acc=None):
     elif isinstance(v, TagV):
         if isinstance(v.n, V):
             roots(v.n, acc)
+    elif isinstance(v, IterMapV):
+        roots(v.src, acc)
+        roots(v.result, acc)
     elif isinstance(v, BoolV):
         for a in F.atoms(v.f):
             acc.add("atom:" + F.show_atom(a))
@@ -352,6 +375,23 @@ class InterpError(Exception):
     pass
 
 
+_KNOWN = None
+_UMAX = {"u8": 0xFF, "u16": 0xFFFF, "u32": 0xFFFFFFFF, "u64": 0xFFFFFFFFFFFFFFFF, "usize": 0xFFFFFFFFFFFFFFFF}
+_U = "(u8|u16|u32|u64|usize)"
+_INT_TRY = re.compile(r"^<%s as std::convert::TryFrom<%s>>::try_from$|^<%s as std::convert::TryInto<%s>>::try_into$|^std::convert::num::<impl std::convert::TryFrom<%s> for %s>::try_from$" % (_U, _U, _U, _U, _U, _U))
+
+
+def known_fns(crate_name):
+    """Functions that existed when the rules were written (refs/known_fns.json); they are the rules' vocabulary."""
+    global _KNOWN
+    if _KNOWN is None:
+        import json
+        import os
+        with open(os.path.join(os.path.dirname(os.path.dirname(os.path.abspath(__file__))), "refs", "known_fns.json")) as fh:
+            _KNOWN = {k: set(v) for k, v in json.load(fh).items()}
+    return _KNOWN.get(crate_name, set())
+
+
 # yasna primitive writers: method -> ASN.1 kind
 PRIMS = {
     "write_bool": "BOOLEAN", "write_u8": "INTEGER", "write_i8": "INTEGER", "write_u16": "INTEGER", "write_i16": "INTEGER",
@@ -383,6 +423,7 @@ class Interp:
         self._const_cache = {}
         self._mut_args = []
         self.atom_vals = {}  # atom key -> operand values (for cmp / eq / contains atoms)
+        self.inlined = set()  # new local helpers that were looked into
 
     # -- context helpers ------------------------------------------------------
     def cur_cond(self, since=0):
@@ -589,6 +630,9 @@ class Interp:
             if k == "Expr":
                 e = p["e"]
                 if e["k"] == "Lit":
+                    if e.get("lk") == "bool":
+                        f = self.to_formula(v)
+                        return f if e.get("v") else Not(f)
                     return self.eq_formula(v, Const(e.get("v")))
                 pathinfo = e
                 subpats = []
@@ -602,6 +646,20 @@ class Interp:
                 return self.eq_formula(v, Def(defp, dk))
             is_variant = "Variant" in dk
             v0 = core(v)
+            if is_variant and isinstance(v0, PhiV) and all(isinstance(core(x), StructV) and core(x).variant for _, x in v0.alts):
+                # a scrutinee that is a case split over known constructors: distribute the pattern over the cases
+                fs = []
+                binds = {}
+                for c_, x in v0.alts:
+                    tmp = {}
+                    f_ = self.bindpat(p, x, tmp)
+                    fs.append(And(c_, f_))
+                    if f_ is not False:
+                        for hid, val in tmp.items():
+                            binds.setdefault(hid, []).append((And(c_, f_), val))
+                for hid, lst in binds.items():
+                    fr[hid] = lst[0][1] if len(lst) == 1 else PhiV(lst)
+                return Or(*fs)
             if is_variant:
                 vname = pathinfo.get("ctor_of") or defp
                 short = vname.split("::")[-1] if vname else "?"
@@ -641,7 +699,9 @@ class Interp:
             return And(*fs)
         if k == "Range":
             f = lambda e: None if e is None else (e.get("v") if e["k"] == "Lit" else e.get("def"))
-            return atom("inrange", core(v).r(), f(p["lo"]), f(p["hi"]), p["incl"])
+            a_ = atom("inrange", core(v).r(), f(p["lo"]), f(p["hi"]), p["incl"])
+            self.atom_vals[a_[1]] = (v,)
+            return a_
         if k == "Slice":
             for sp in p["before"] + p["after"]:
                 self.bindpat(sp, Sel(v, "[]"), fr)
@@ -665,6 +725,16 @@ class Interp:
             lx = self._len_of(x)
             if lx is not None and c == 0 and isinstance(c, int) and not isinstance(c, bool):
                 return atom("empty", lx.r())
+        for x, y in ((a, b), (b, a)):
+            y0 = core(y)
+            if isinstance(y0, StructV) and y0.variant and not y0.fields and y0.adt is None:
+                x0 = core(x)
+                name = y0.variant
+                if name in ("Some", "None"):
+                    continue
+                if isinstance(x0, StructV) and x0.variant:
+                    return x0.variant == y0.variant
+                return atom("variant", x0.r(), name.split("::")[-1])
         ra, rb = core(a).r(), core(b).r()
         if ra == rb:
             return True
@@ -673,7 +743,9 @@ class Interp:
             ra, rb = rb, ra
         elif ca is None and cb is None and rb < ra:
             ra, rb = rb, ra
-        return atom("eq", ra, rb)
+        a_ = atom("eq", ra, rb)
+        self.atom_vals[a_[1]] = (a, b)
+        return a_
 
     # -- expressions ------------------------------------------------------------------
     def ev(self, n, fr):
@@ -886,9 +958,16 @@ class Interp:
 
     def ev_For(self, n, fr):
         it = self.ev(n["iter"], fr)
-        elem = Sel(it, "[]")
+        lit = core(it)
+        if isinstance(lit, ArrayV) and 0 < len(lit.items) <= 64:
+            # a loop over a literal table: unroll it
+            for x in lit.items:
+                self.bindpat(n["pat"], x, fr)
+                self.ev(n["body"], fr)
+            return UNIT
+        elem = elem_of(it)
         self.bindpat(n["pat"], elem, fr)
-        self.ctx.append(("rep", it))
+        self.ctx.append(("rep", core(it).src if isinstance(core(it), IterMapV) else it))
         try:
             self.ev(n["body"], fr)
         finally:
@@ -914,7 +993,30 @@ class Interp:
     def ev_Try(self, n, fr):
         v = self.ev(n["e"], fr)
         self.tries.append((v, n, self.cur_fn(), self.cur_cond()))
-        return Via("?", v)
+        return Via("?", self._unwrap_ok(v))
+
+    def _unwrap_ok(self, v):
+        """`Ok(x)?` / `Some(x)?` is x; a join keeps only its success alternatives (the others leave the function)."""
+        v0 = core(v)
+        if isinstance(v0, StructV) and v0.variant in ("Ok", "Some") and "0" in v0.fields:
+            return v0.fields["0"]
+        if isinstance(v0, PhiV):
+            alts = []
+            for c, x in v0.alts:
+                x0 = core(x)
+                if isinstance(x0, StructV) and x0.variant in ("Err", "None"):
+                    continue
+                alts.append((c, self._unwrap_ok(x)))
+            if len(alts) == 1:
+                return alts[0][1]
+            if alts:
+                return PhiV(alts)
+        return v
+
+    def _is_fnitem(self, x):
+        """a named local function used as a value (callback)"""
+        x = core(x)
+        return isinstance(x, Def) and x.dk in ("Fn", "AssocFn") and x.path in self.crate.bodies and "hir" in self.crate.bodies[x.path] and x.path not in self.fn_stack
 
     def ev_Ret(self, n, fr):
         v = self.ev(n["e"], fr) if n.get("e") else UNIT
@@ -938,7 +1040,9 @@ class Interp:
         if isinstance(v0, StructV) and v0.variant == "Err":
             # a failure: no artefact exists on this path; emission conditions are "given success"
             act.fails.append((c, v, n))
-            self.fails.append((c, v, n, self.cur_fn()))
+            # the crate-wide log carries the whole path (conditions of enclosing inlined activations too)
+            outer = [e[1] for e in self.ctx[:idx] if e[0] == "cond"]
+            self.fails.append((And(And(*outer), c), v, n, self.cur_fn()))
             return UNIT
         act.rets.append((c, v))
         act.ret = Or(act.ret, c)
@@ -1070,14 +1174,19 @@ class Interp:
                 a_ = atom("contains", c0.r(), core(args[1]).r())
                 self.atom_vals[a_[1]] = (args[0], args[1])
                 return BoolV(a_)
-            if last in ("any", "all") and len(args) == 2 and isinstance(core(args[1]), ClosureV):
+            if last in ("any", "all") and len(args) == 2 and (isinstance(core(args[1]), ClosureV) or self._is_fnitem(args[1])):
                 cl = core(args[1])
+
+                def apply_pred(x):
+                    if isinstance(cl, ClosureV):
+                        return self.call_closure(cl, [x])
+                    return self.call_body(cl.path, self.crate.bodies[cl.path], [x])
                 rnode = n.get("recv") or {}
                 if "std::option::" in rnode.get("ty", ""):
-                    body = self.to_formula(self.call_closure(cl, [Sel(c0, "?")]))
+                    body = self.to_formula(apply_pred(Sel(c0, "?")))
                     sm = self._some(c0)
                     return BoolV(And(sm, body) if last == "any" else Or(Not(sm), body))
-                body = self.to_formula(self.call_closure(cl, [Sel(c0, "[]")]))
+                body = self.to_formula(apply_pred(Sel(c0, "[]")))
                 a_ = atom(last, c0.r(), F.show(body))
                 self.atom_vals[a_[1]] = (body, Sel(c0, "[]"))
                 return BoolV(a_)
@@ -1094,7 +1203,7 @@ class Interp:
                 return BoolV(f if last == "eq" else Not(f))
         # ---- mutation through &mut receiver ----
         rn = n.get("recv")
-        if rn is not None and rn.get("aty", "").startswith("&mut "):
+        if rn is not None and (rn.get("aty") or rn.get("ty") or "").startswith("&mut "):
             self.muts.append((a0, "method:" + (inst or callee), args[1:], n, self.cur_fn(), self.cur_cond()))
             if isinstance(a0, MutV):
                 a0.ops.append(("call", last, *args[1:]))
@@ -1103,22 +1212,64 @@ class Interp:
         if tgt is not None and tgt not in self.no_inline:
             body = self.crate.bodies[tgt]
             carries = any(isinstance(core(a), (WriterV, ClosureV)) for a in args)
+            # a local function that did not exist when the rules were written is a helper introduced by a later
+            # change: look inside it instead of treating it as an opaque primitive (recursion is not followed)
+            new_helper = tgt not in known_fns(self.crate.name) and tgt not in self.fn_stack
             if carries or is_bool or tgt in self.inline_always:
                 return self.call_body(tgt, body, args)
+            if new_helper:
+                self.inlined.add(tgt)
+                return Via("inlined", self.call_body(tgt, body, args), tgt)
             return CallV(tgt, args, n, inst)
         # ---- transparent adaptors ----
+        if last == "bytes" and len(args) == 1 and "impl str>::bytes" in callee:
+            return Via("bytes", a0, inst or callee)
         if last in TRANSPARENT and len(args) == 1:
             return Via(last, a0, inst or callee)
+        if last in ("try_from", "try_into") and len(args) == 1:
+            # std model: a checked conversion between unsigned integer types succeeds iff the value fits
+            m_ = _INT_TRY.match(inst or callee)
+            if m_:
+                dst = m_.group(1) or m_.group(4) or m_.group(6)
+                src = m_.group(2) or m_.group(3) or m_.group(5)
+                if _UMAX[dst] >= _UMAX[src]:
+                    return StructV("std::result::Result", "Ok", {"0": Via("as:" + dst, a0)})
+                fits = self._cmp("<=", a0, Const(_UMAX[dst]))
+                return PhiV([(fits, StructV("std::result::Result", "Ok", {"0": Via("as:" + dst, a0)})),
+                             (Not(fits), StructV("std::result::Result", "Err", {"0": Unknown("TryFromIntError")}))])
         if last in ("from", "try_from", "try_into") and len(args) == 1:
             return Via(last, a0, inst or callee)
         if callee.endswith("Tag::context") and len(args) == 1:
             return TagV("ctx", args[0])
         # closures handed to foreign adaptors (map, fold, filter_map, for_each, map_err, ...):
         # apply them once to symbolic arguments so that their callees and places are visible
-        if any(isinstance(core(a), ClosureV) for a in args):
+        _fnitem = self._is_fnitem
+        if any(isinstance(core(a), ClosureV) or _fnitem(a) for a in args):
             new_args = []
             for a in args:
                 ca = core(a)
+                if _fnitem(ca):
+                    # a named local function used as the adaptor's callback: apply it to a symbolic element
+                    b_ = self.crate.bodies[ca.path]
+                    np_ = len(b_.get("params", []))
+                    el = args[0] if args else Unknown("recv")
+                    rn_ty = (n.get("recv") or {}).get("ty", "")
+                    if last == "map_err":
+                        sym = [Sel(el, "#Err.0")]
+                    elif last in ("map", "and_then") and ("Option<" in rn_ty[:40] or "Result<" in rn_ty[:40]):
+                        sym = [Sel(el, "?")]
+                    else:
+                        sym = [elem_of(el)]
+                    sym = (sym + [Unknown("arg")] * np_)[:np_]
+                    is_iter = not ("Option<" in rn_ty[:40] or "Result<" in rn_ty[:40])
+                    self.ctx.append(("rep", el) if is_iter and last in ("for_each", "filter_map", "map", "find", "find_map", "filter", "flat_map") else ("cond", True))
+                    try:
+                        # exactly what a direct call `f(elem)` would give (known functions stay calls, helpers are inlined)
+                        syn = {"k": "Call", "callee": ca.path, "sp": n.get("sp"), "ty": b_["hir"].get("ty"), "args": []}
+                        new_args.append(Via("closure-result", self.call_fn(ca.path, None, sym, syn, fr), ca.path))
+                    finally:
+                        self.ctx.pop()
+                    continue
                 if isinstance(ca, ClosureV):
                     np_ = len(ca.node["params"])
                     if last in ("map_err", "or_else", "unwrap_or_else", "ok_or_else", "map", "and_then", "then", "filter_map", "find_map", "find", "filter", "for_each", "flat_map", "position", "retain", "all", "any") or np_ == 1:
@@ -1129,19 +1280,25 @@ class Interp:
                         elif last in ("map", "and_then") and ("Option<" in rn_ty[:40] or "Result<" in rn_ty[:40]):
                             sym = [Sel(el, "?")]
                         else:
-                            sym = [Sel(el, "[]")]
+                            sym = [elem_of(el)]
                         sym = (sym + [Unknown("arg")] * np_)[:np_]
                     elif last in ("fold", "try_fold") and np_ == 2:
-                        sym = [Unknown("acc"), Sel(args[0], "[]")]
+                        sym = [Unknown("acc"), elem_of(args[0])]
                     else:
                         sym = [Unknown("arg%d" % i) for i in range(np_)]
-                    self.ctx.append(("rep", args[0] if args else Unknown("?")) if last in ("fold", "for_each", "filter_map", "map", "retain", "find", "find_map", "filter", "flat_map") and not ("Option<" in (n.get("recv") or {}).get("ty", "")[:40] or "Result<" in (n.get("recv") or {}).get("ty", "")[:40]) else ("cond", True))
+                    src_it = args[0] if args else Unknown("?")
+                    if isinstance(core(src_it), IterMapV):
+                        src_it = core(src_it).src
+                    self.ctx.append(("rep", src_it) if last in ("fold", "for_each", "filter_map", "map", "retain", "find", "find_map", "filter", "flat_map") and not ("Option<" in (n.get("recv") or {}).get("ty", "")[:40] or "Result<" in (n.get("recv") or {}).get("ty", "")[:40]) else ("cond", True))
                     try:
                         new_args.append(Via("closure-result", self.call_closure(ca, sym)))
                     finally:
                         self.ctx.pop()
                 else:
                     new_args.append(a)
+            rn_ty0 = (n.get("recv") or {}).get("ty", "")
+            if last == "map" and len(new_args) == 2 and isinstance(new_args[1], Via) and new_args[1].name == "closure-result" and not ("Option<" in rn_ty0[:40] or "Result<" in rn_ty0[:40]):
+                return IterMapV(args[0], new_args[1].inner)
             args = new_args
         # a foreign call given a writer we cannot see into
         for a in args:
